@@ -521,6 +521,9 @@ func (u *Unit) preludeText() string {
 	}
 	sb.WriteString("(declare-fun str_len (Str) Int)\n(declare-fun str_rlen (Str) Int)\n(declare-fun str_runes (Str) (Array Int Int))\n")
 	sb.WriteString("(declare-fun str_of_runes ((Array Int Int) Int Int) Str)\n(declare-fun str_cat (Str Str) Str)\n(declare-fun str_lit (Int) Str)\n(declare-fun str_of_rune (Int) Str)\n")
+	// substring by byte offsets (s[lo:hi]): its length is hi-lo when the bounds are in range
+	sb.WriteString("(declare-fun str_sub (Str Int Int) Str)\n")
+	sb.WriteString("(assert (forall ((s Str) (a Int) (b Int)) (! (=> (and (<= 0 a) (<= a b) (<= b (str_len s))) (= (str_len (str_sub s a b)) (- b a))) :pattern ((str_sub s a b)))))\n")
 	sb.WriteString("(assert (forall ((s Str)) (! (and (>= (str_rlen s) 0) (>= (str_len s) (str_rlen s))) :pattern ((str_rlen s)))))\n")
 	// byte length: never negative, 0 for the empty string, additive under concatenation
 	sb.WriteString("(assert (= (str_len str_empty) 0))\n(assert (= (str_rlen str_empty) 0))\n")
